@@ -5,7 +5,7 @@
 (* Every predicate returns the set of failure codes (empty = allowed).        *)
 (* MC_C20 feeds them the EGMock machine, Trace_C20 what the real MockDisplay  *)
 (* did.  Not covered by the property and therefore never judged here:         *)
-(* get_pixel outside the display, the panic message, the colours of diff(),   *)
+(* the panic message, the colours of diff(),                                   *)
 (* the exact zero rectangle of an empty display, which character a colour has.*)
 EXTENDS EGMock
 
@@ -73,6 +73,9 @@ DrawFails(d, px, out) ==
 \*     ne: (display != reference), diff: triples of display.diff(reference)]
 ObsFails(d, rf, o) ==
      (IF o.cells = Triples(d.cells) /\ o.ref = Triples(rf.cells) THEN {} ELSE {"get_pixel"})
+\* a point that is not on the display is never touched: o.outside = <<x, y, 0 None | 1 Some | 2 panicked>>
+\cup (IF \A i \in 1..Len(o.outside) : InDisplay(<<o.outside[i][1], o.outside[i][2]>>) \/ o.outside[i][3] = 0
+      THEN {} ELSE {"get_pixel_outside_display"})
 \cup (IF IsTightBox(d.cells, o.aa) /\ IsTightBox(rf.cells, o.raa) THEN {} ELSE {"affected_area"})
 \cup (IF LET agree == CellsAgree(d.cells, rf.cells) IN
          (o.eq = 1) = agree /\ (o.eqr = 1) = agree /\ (o.ne = 1) = ~agree
